@@ -1132,6 +1132,13 @@ pub fn post_op(cx: &Ctx, b: &Built, op: &Op, s: &StepOut) {
             if s.tx.is_ok() {
                 claim(f, "C08:config update only for the admin", *sender == P::Admin);
                 crate::cfgops::check_update(cx, s, *sections);
+            } else if let Tx::Err(e) = &s.tx {
+                // every section built by cfgops is well-formed unless it carries an old-prefix address next to a prefix change
+                let old_prefix_addr = *sections & crate::cfgops::S_OLDPREFIX_TREASURY != 0 && *sections & crate::cfgops::S_PROTOCOL != 0 && *sections & (crate::cfgops::S_FEE | crate::cfgops::S_MONITORS) != 0;
+                // a prefix change without re-validating stored addresses is allowed by the code; monitors under the old prefix in the same message are not
+                if *sender == P::Admin && !old_prefix_addr {
+                    claim(f, &format!("C14:a well-formed update is accepted from the admin [{}]", short(e)), false);
+                }
             }
         }
         Op::Donate { .. } | Op::UnstakeMinted { .. } => {}
